@@ -313,6 +313,25 @@ func gen(tier string, rng *h.Rng, emit func(string)) {
 			}
 		})
 	}
+	// review E #2: an endpoint that ACCEPTED the transaction but whose reply is lost ("lost": the connection is cut after
+	// eth_sendRawTransaction was processed), at every position among acc / conn / revert / lost endpoints
+	for n := 1; n <= 3; n++ {
+		assignments([]string{"acc", "conn", "revert", "lost"}, n, func(a []string) {
+			has := false
+			for _, o := range a {
+				has = has || o == "lost"
+			}
+			if !has {
+				return
+			}
+			for _, nm := range []string{"rn", "ur"} {
+				emit(fmt.Sprintf("seq %s %s/%s/%s", cfg(), nm, callArgs(nm, rng, k, false), strings.Join(a, ",")))
+				k++
+			}
+		})
+	}
+	// … and followed by a second call on the same adaptor: the nonces of the endpoints that took the first one moved
+	emit("seq 5000000 20000000000 1 rn/-/lost,acc rn/-/acc,acc rn/-/conn,acc")
 	// all six calls x argument boundaries on healthy endpoints
 	nb := 8
 	if thorough {
